@@ -78,6 +78,13 @@ Next ==
   \/ v[1] = "chunk" /\ v[2] = 0 /\ \E m \in {"text", "bin"} : v' = <<"nn", m, "none", 0>>                                    \* the unfaulted saves load
   \/ v[1] = "chunk" /\ \E m \in {"text", "bin"}, f \in {"truncate", "flipbyte", "zero", "ff", "append", "digit", "tok-ts", "tok-ts1", "tok-np", "tok-np1", "tok-m1", "tok-m2", "tok-big"},
         p \in {q \in 0..400 : q % NChunks = v[2]} : v' = <<"nn", m, f, p>>
+  \* re-initialisation of an initialised NearestNeighbor that fails at every possible point: a bad bucket size, the k-th call of
+  \* the distance function throwing (k over every call Initialize makes), the k-th memory allocation failing; sizes of the old
+  \* and the new point set differ or coincide ("If an exception is thrown, the state of the NearestNeighbor is unchanged")
+  \/ v[1] = "chunk" /\ \E old \in {0, 5, 40}, new \in {0, 3, 40, 41}, b \in {0, 4, 10} :
+        \/ \E k \in {q \in 0..260 : q % NChunks = v[2]} : v' = <<"nninit", old, new, b, "dist", k>>
+        \/ \E k \in {q \in 0..24 : q % NChunks = v[2]} : v' = <<"nninit", old, new, b, "alloc", k>>
+  \/ v[1] = "chunk" /\ v[2] = 2 /\ \E old \in {0, 5, 40}, new \in {0, 3, 40, 41}, b \in {-1, 11, 2000000000} : v' = <<"nninit", old, new, b, "none", 0>>
 
   \* malformed model files (metadata text and binary coefficient file of MagneticModel / GravityModel): byte faults at every
   \* offset, line faults (dropped / duplicated keyword, value replaced by a special class), set-header words replaced
@@ -111,5 +118,5 @@ TableInv ==
   /\ \A nm \in NanDocumented : \E i \in 1..N : Entries[i].n = nm /\ Entries[i].k = "validating"
                                                 /\ \A j \in 1..Len(Entries[i].a) : ~Invalid(Entries[i].a[j], "nan")
 
-Emit == v[1] \in {"call", "str", "nn", "mfile", "gfile"} => PrintT(ToJson(v))
+Emit == v[1] \in {"call", "str", "nn", "nninit", "mfile", "gfile"} => PrintT(ToJson(v))
 =============================================================================
